@@ -8,7 +8,8 @@ from .. import x as X
 from .base import (Profile, Vocab, gen_sid, gen_data, writer, getter, finder_paths, do_create, do_write,
                    creatable_types, file_types, NAME_POOL, PLAIN_NAMES)
 
-JUNK_KINDS = ["desync", "unknown_ext", "dotfile", "stray_folder", "wrong_place", "nested_copy", "case_folder", "cwd_none"]
+JUNK_KINDS = ["desync", "unknown_ext", "dotfile", "stray_folder", "wrong_place", "nested_copy", "case_folder", "cwd_none",
+              "junk_crowd"]
 
 
 class StoreProfile(Profile):
@@ -35,7 +36,7 @@ class StoreProfile(Profile):
             # one crowded directory: many siblings at one unconstrained level (thresholds on list / directory size)
             run.scratch["crowded"] = True
             cfg = m.default_config
-            t = rng.choice(creatable_types(m, vocab, cfg))
+            t = rng.choice(file_types(m, vocab, cfg) if rng.random() < 0.6 else creatable_types(m, vocab, cfg))
             frees = [i for i, k in enumerate(m.by_name[t].keys) if m.vocab(t, k)[0] == "free"]
             base = gen_sid(rng, m, vocab, t, pool, reuse=0.8)
             if base and frees:
@@ -128,7 +129,7 @@ class StoreProfile(Profile):
             root = m.roots(cfg)
             files = [(s, p) for s, p in ents if m.is_leaf_type(shadow.entities[cfg][s])]
             dirs = [(s, p) for s, p in ents if not m.is_leaf_type(shadow.entities[cfg][s])]
-            path, isdir, content = None, False, ""
+            path, isdir, content, count = None, False, "", 0
             if kind == "desync" and len(files) >= 1:
                 s, p = rng.choice(files)
                 d, fn = posixpath.split(p)
@@ -165,6 +166,12 @@ class StoreProfile(Profile):
                 s, p = rng.choice(files)
                 d, fn = posixpath.split(p)
                 path = d + "/backup/" + fn
+            elif kind == "junk_crowd" and dirs:
+                # dozens of foreign entries in one directory, sorting before and after the real ones
+                s, p = rng.choice(dirs)
+                path = p + "/" + rng.choice(["_backup_", "000_tmp_", "zz_old_"])
+                isdir = rng.random() < 0.5
+                count = rng.choice([12, 55, 70])
             elif kind == "case_folder":
                 path = root + rng.choice(["hamlet", "Hamlet", "HAMLET2", "HAMLET/PROD2", "HAMLET/prod"])
                 isdir = True
@@ -176,7 +183,8 @@ class StoreProfile(Profile):
             if path.startswith("@cwd/"):
                 rel = path
             else:
-                if any(m.resolve_path(path, c) is not None for c in m.configs):
+                probe = path + ("000" if count else "")
+                if any(m.resolve_path(probe, c) is not None for c in m.configs):
                     continue   # a template accepts it: not junk, by definition
                 # an ancestor directory that does not exist yet must not be an entity either
                 bad = False
@@ -190,7 +198,10 @@ class StoreProfile(Profile):
                 if bad or path in shadow.paths[cfg].values():
                     continue
                 rel = path[len("<W>/"):] if path.startswith("<W>/") else os.path.relpath(path, run.world.root)
-            return {"op": "junk", "kind": kind, "rel": rel, "dir": isdir, "content": content}
+            st = {"op": "junk", "kind": kind, "rel": rel, "dir": isdir, "content": content}
+            if count:
+                st["count"] = count
+            return st
         return None
 
     def apply_junk(self, run, step):
@@ -205,16 +216,22 @@ class StoreProfile(Profile):
             if not ok:
                 run.stats["junk_skipped"] += 1
                 return
-        if os.path.lexists(p):
+        targets = [p] if not step.get("count") else [p + "%03d" % i for i in range(int(step["count"]))]
+        if step.get("count") and any(run.m.resolve_path("<W>/" + rel + "%03d" % i, c) is not None
+                                     for i in (0, 1) for c in run.m.configs):
+            run.stats["junk_skipped"] += 1
+            return
+        if any(os.path.lexists(t) for t in targets):
             run.stats["junk_skipped"] += 1
             return
         try:
-            if step.get("dir"):
-                os.makedirs(p)
-            else:
-                os.makedirs(os.path.dirname(p), exist_ok=True)
-                with open(p, "w") as f:
-                    f.write(step.get("content") or "")
+            for t in targets:
+                if step.get("dir"):
+                    os.makedirs(t)
+                else:
+                    os.makedirs(os.path.dirname(t), exist_ok=True)
+                    with open(t, "w") as f:
+                        f.write(step.get("content") or "")
         except OSError:
             run.stats["junk_skipped"] += 1
             return
